@@ -226,4 +226,80 @@ theorem read_faithful_chunked_x (s : Sock) (m t p : Bytes) (hs : List (Bytes × 
         he hc rfl hcl hte]
   simp only [htg]
 
+/-! ### the keep-alive loop -/
+
+theorem read_faithful_expect_reqOf (s : Sock) (q : WfReq) (rest : Bytes) (hw : WellFormedX q) (he : s.err = 0)
+    (hc : s.closed = false) (hi : s.inp = serialize q ++ rest) :
+    AslModel.HttpParse.read s = .ok (reqOf q, { s with inp := rest, out := s.out ++ interim (hdrDic q.headers) }) ∧
+    (reqOf q).method = q.method ∧ (reqOf q).proto = q.proto := by
+  obtain ⟨tg, htg, hread⟩ := read_faithful_expect_sock s q rest hw he hc hi
+  unfold reqOf
+  rw [htg]
+  exact ⟨hread, rfl, rfl⟩
+
+theorem serveStep_dispatch_x (s : Sock) (acc : List Req) (q : WfReq) (rest : Bytes) (hw : WellFormedX q)
+    (hd : Dispatched q) (he : s.err = 0) (hc : s.closed = false) (hi : s.inp = serialize q ++ rest) :
+    serveStep ⟨s, acc⟩ =
+      .ok (.next ⟨(respond (reqOf q) { s with inp := rest, out := s.out ++ interim (hdrDic q.headers) }).1, reqOf q :: acc⟩) := by
+  obtain ⟨inp, err, closed, out⟩ := s
+  simp only at he hc hi
+  subst he hc
+  unfold serveStep
+  have hne : inp.isEmpty = false := by
+    have := serialize_length_pos q
+    cases hs : inp with
+    | nil => rw [hs] at hi; have := congrArg List.length hi; simp at this; omega
+    | cons a b => rfl
+  have he' : ((0 : Nat) != 0) = false := rfl
+  simp only [he', hne, Bool.or_self, Bool.false_eq_true, if_false]
+  obtain ⟨hread, hrm, hrp⟩ := read_faithful_expect_reqOf ⟨inp, 0, false, out⟩ q rest hw rfl rfl hi
+  rw [hread]
+  simp only [bind, Except.bind]
+  have hm : ((reqOf q).method.length == 0) = false := by
+    rw [hrm]
+    have := hw.method_ne
+    cases hmm : q.method with
+    | nil => exact absurd hmm this
+    | cons a b => rfl
+  have hp : ((reqOf q).path.length == 0) = false := by simpa using hd.path_ne
+  have hpr : ((reqOf q).proto.length == 0) = false := by
+    rw [hrp]
+    have := hw.proto_ok.1
+    cases hmm : q.proto with
+    | nil => exact absurd hmm this
+    | cons a b => rfl
+  simp only [he', hm, hp, hpr, Bool.or_self, Bool.false_eq_true, if_false]
+  have hstop : (respond (reqOf q) ⟨rest, 0, false, out ++ interim (hdrDic q.headers)⟩).2 = false := by
+    rw [respond_stop]
+    exact hd.keeps
+  have hopt : (cstr (reqOf q).method == sOptions) = false := by rw [hrm]; exact hd.not_options
+  simp only [hstop, hopt, Bool.false_eq_true, if_false, pure, Except.pure]
+
+theorem iterate_serve_pipelined_x (qs : List WfReq) (hq : ∀ q ∈ qs, WellFormedX q ∧ Dispatched q) :
+    ∀ (fuel : Nat) (s : Sock) (acc : List Req), s.err = 0 → s.closed = false → s.inp = qs.flatMap serialize →
+      qs.length < fuel →
+      ∃ s', iterate serveStep fuel ⟨s, acc⟩ = .ok (s', acc.reverse ++ qs.map reqOf) ∧ s'.inp = [] ∧ s'.err = 0 := by
+  induction qs with
+  | nil =>
+    intro fuel s acc he hc hi hf
+    obtain ⟨f, rfl⟩ : ∃ f, fuel = f + 1 := ⟨fuel - 1, by omega⟩
+    simp only [iterate]
+    rw [serveStep_eof s acc (by simpa using hi)]
+    exact ⟨s, by simp [pure, Except.pure], by simpa using hi, he⟩
+  | cons q t ih =>
+    intro fuel s acc he hc hi hf
+    obtain ⟨f, rfl⟩ : ∃ f, fuel = f + 1 := ⟨fuel - 1, by simp at hf; omega⟩
+    obtain ⟨hw, hd⟩ := hq q (by simp)
+    simp only [iterate]
+    rw [serveStep_dispatch_x s acc q (t.flatMap serialize) hw hd he hc (by rw [hi]; simp)]
+    simp only []
+    obtain ⟨h1, h2, h3⟩ := respond_open (reqOf q)
+      { s with inp := t.flatMap serialize, out := s.out ++ interim (hdrDic q.headers) } hc
+    obtain ⟨s', hs', hinp, herr⟩ := ih (fun x hx => hq x (by simp [hx])) f
+      (respond (reqOf q) { s with inp := t.flatMap serialize, out := s.out ++ interim (hdrDic q.headers) }).1
+      (reqOf q :: acc) (h1.trans he) h2 h3 (by simp at hf; omega)
+    refine ⟨s', ?_, hinp, herr⟩
+    rw [hs']
+    simp
+
 end AslProofs.HttpExpect
